@@ -21,7 +21,14 @@ Definition pinned_patterns : bool :=
   && list_eqb charset_value_re_text
        [40; 91; 92; 119; 33; 35; 36; 37; 38; 42; 43; 92; 45; 46; 94; 96; 124; 126; 93; 42; 41; 39; 91; 92; 119; 33; 35; 36; 37; 38; 42; 43; 92; 45; 46; 94; 96; 124; 126; 93; 42; 39; 40; 91; 92; 119; 33; 35; 36; 37; 38; 39; 42; 43; 92; 45; 46; 94; 96; 124; 126; 93; 43; 41]
   && (charset_value_re_flags =? 320)
-  && sort_key_specificity_then_quality_descending.
+  && sort_key_specificity_then_quality_descending
+  (* http._token_chars (quote_header_value) and the RFC 2231 charset allow list *)
+  && forallb (fun c => Bool.eqb (in_ranges c token_chars)
+                         (in_ranges c [(33, 33); (35, 39); (42, 43); (45, 46); (48, 57); (65, 90); (94, 122); (124, 124); (126, 126)]))
+             (nat_range 256)
+  && forallb (fun r => snd r <? 256) token_chars
+  && strs_eqb options_charsets
+       [[97; 115; 99; 105; 105]; [105; 115; 111; 45; 56; 56; 53; 57; 45; 49]; [117; 115; 45; 97; 115; 99; 105; 105]; [117; 116; 102; 45; 56]].
 Lemma patterns_pinned : pinned_patterns = true.
 Proof. vm_compute. reflexivity. Qed.
 
